@@ -9,7 +9,7 @@
 (* `search` events carrying the abstract request, the check kind and the   *)
 (* observed responses.  Verdicts are non-blocking (FAIL / DEV lines).      *)
 (***************************************************************************)
-EXTENDS Collapse, Rescore, Highlight, Json, IOUtils
+EXTENDS Collapse, Rescore, Highlight, Suggest, Json, IOUtils
 
 Rec == ndJsonDeserialize(IOEnv.TRACE)
 
@@ -43,6 +43,7 @@ Judge(e) ==
   CASE e.check = "collapse" -> CheckCollapse(D, docs, e, l, info.scn)
     [] e.check = "rescore" -> CheckRescore(D, docs, e, l, info.scn)
     [] e.check = "highlight" -> CheckHighlight(e)
+    [] e.check = "suggest" -> CheckSuggest(D, docs, e, l, info.scn)
     [] OTHER -> Tell("TOOL", e.prop, l, info.scn, e, "unknown check kind", "")
 
 TNext ==
